@@ -67,7 +67,7 @@ Definition model_functions : list (string * (list (string * list (string * bool)
     ("set p0.refund := recv.prev", [])
   ], []));
   ("resetObjectChange.Revert", ([
-    ("call p0.setStateObject(recv.prev)", [])
+    ("set p0.stateObjects[recv.prev.Address()] := recv.prev", [])
   ], []));
   ("storageChange.Revert", ([
     ("call p0.getStateObject(recv.account).setState(recv.key,recv.prevalue)", [])
@@ -102,9 +102,9 @@ Definition model_functions : list (string * (list (string * list (string * bool)
     ("set recv.refund := -=p0", [("lt(recv.refund,p0)", false)])
   ], []));
   ("StateDB.createObject", ([
-    ("call recv.setStateObject(newObject(recv,p0,Account{}))", []);
     ("journal pre createObjectChange{account=p0}", [("eq(nil,recv.getStateObject(p0))", true)]);
-    ("journal pre resetObjectChange{prev=recv.getStateObject(p0)}", [("eq(nil,recv.getStateObject(p0))", false)])
+    ("journal pre resetObjectChange{prev=recv.getStateObject(p0)}", [("eq(nil,recv.getStateObject(p0))", false)]);
+    ("set recv.stateObjects[newObject(recv,p0,Account{}).Address()] := newObject(recv,p0,Account{})", [])
   ], []));
   ("StateDB.CreateAccount", ([
     ("call recv.createObject(p0)", []);
